@@ -997,7 +997,13 @@ impl ProgGen {
                 let m = rng.pick(&scope.un_macros).clone();
                 let name = format!("g{}", n);
                 scope.const_globals.push(name.clone());
-                item(&[format!("#define APPLY{} {}", n, m), format!("static const int {} = APPLY{}(3) + APPLY{} (2);", name, n, n)])
+                if rng.chance(1, 2) {
+                    item(&[format!("#define APPLY{} {}", n, m), format!("static const int {} = APPLY{}(3) + APPLY{} (2);", name, n, n)])
+                } else {
+                    // ... or a function-like macro that hands its argument (the name) back
+                    self.feature("use:macro-name-from-argument");
+                    item(&[format!("#define APPLY{}(f) f", n), format!("static const int {} = APPLY{}({})(3) + APPLY{}( {} ) (2);", name, n, m, n, m)])
+                }
             }
             15 if !scope.int_functions.is_empty() => {
                 self.feature("use:call");
